@@ -36,6 +36,13 @@ def run(tier, seed, replay=None):
         for c in extra:
             c["id"] = "f%d_%s" % (k, c["id"])
         cases += extra
+    # duration groups: the time spent at a stop changes with its predecessor while arrivals stay the same
+    # (zero travel, long group durations, two windows far apart, small max wait behind them)
+    import random as _random
+    grng = _random.Random(seed * 1009 + 909)
+    for i in range(300 if tier == "quick" else 6000):
+        gm = G.dgroup_focus(grng, "small", vehicle_wait=(i % 2 == 1))
+        cases.append({"id": "g%d" % i, "model": gm, "ops": G.gen_ops(grng, gm, 30, "checked_only")})
     corpus = []
     for c in FW.load_corpus(PID):           # minimised past failures run first
         m = c["model"]
